@@ -10,13 +10,14 @@ again (must pass).  Writes /verif/seeded/<PROP>-<i>/{patch.diff,demo.rs,demo/,me
 import json, os, shutil, subprocess, sys, time
 prop, i = sys.argv[1], sys.argv[2]
 checks = sys.argv[3:] or [prop]
-wt, src = "/tmp/mut-%s" % prop, "/tmp/mut-%s-out/%s" % (prop, i)
-dst = "/verif/seeded/%s-%s" % (prop, i)
+rnd = os.environ.get("SEED_ROUND", "r1")
+wt, src = "/tmp/mut-%s" % prop, "/tmp/mut-%s-out-%s/%s" % (prop, rnd, i)
+dst = "/verif/seeded/%s-%s%s" % (prop, "" if rnd == "r1" else rnd + "-", i)
 env = dict(os.environ, CARGO_NET_OFFLINE="true", CARGO_TARGET_DIR=wt + "/target")
 def sh(cmd, cwd=None, e=env, timeout=3600):
     p = subprocess.run(cmd, shell=True, cwd=cwd, env=e, text=True, stdout=subprocess.PIPE, stderr=subprocess.STDOUT, timeout=timeout)
     return p.returncode, p.stdout
-res = {"property": prop, "mutant": i, "confirmed_at": time.strftime("%Y-%m-%d %H:%M")}
+res = {"property": prop, "mutant": i, "round": rnd, "confirmed_at": time.strftime("%Y-%m-%d %H:%M")}
 sh("git checkout -- .", cwd=wt)
 rc, out = sh("git apply --check %s/patch.diff && git apply %s/patch.diff" % (src, src), cwd=wt)
 assert rc == 0, out
@@ -24,8 +25,13 @@ rc, out = sh("cargo test --workspace --offline 2>&1 | grep -E '^test result|FAIL
 lines = out.strip().splitlines()
 res["suite_with_change"] = {"ok_lines": sum(l.startswith("test result: ok") for l in lines), "bad_lines": [l for l in lines if not l.startswith("test result: ok")]}
 demo = src + "/demo"
-rc, out = sh("cargo run --offline 2>&1 | tail -5", cwd=demo, e=dict(env, CARGO_TARGET_DIR=wt + "/target/demo"))
-rc1, _ = sh("cargo run --offline >/dev/null 2>&1", cwd=demo, e=dict(env, CARGO_TARGET_DIR=wt + "/target/demo"))
+meta0 = json.load(open(os.path.join(src, "meta.json")))
+# demonstrations that need a particular build configuration say so in meta.json ("demo_flags", "demo_env")
+dflags = os.environ.get("DEMO_FLAGS", meta0.get("demo_flags", ""))
+denv = dict(env, CARGO_TARGET_DIR=wt + "/target/demo")
+if os.environ.get("DEMO_RUSTFLAGS"):
+    denv["RUSTFLAGS"] = os.environ["DEMO_RUSTFLAGS"]
+rc1, _ = sh("cargo run --offline %s >/dev/null 2>&1" % dflags, cwd=demo, e=denv)
 res["demo_with_change_exit"] = rc1
 res["checks"] = {}
 for c in checks:
@@ -43,7 +49,7 @@ for c in checks:
             break
     sh("rm -rf /verif/run/%s-quick-*" % c)
 sh("git checkout -- .", cwd=wt)
-rc2, _ = sh("cargo run --offline >/dev/null 2>&1", cwd=demo, e=dict(env, CARGO_TARGET_DIR=wt + "/target/demo"))
+rc2, _ = sh("cargo run --offline %s >/dev/null 2>&1" % dflags, cwd=demo, e=denv)
 res["demo_without_change_exit"] = rc2
 res["confirmed"] = (not res["suite_with_change"]["bad_lines"]) and res["suite_with_change"]["ok_lines"] > 30 and rc1 != 0 and rc2 == 0
 os.makedirs(dst, exist_ok=True)
